@@ -1040,14 +1040,16 @@ func (in *Interp) stmt(fr *Frame, s ast.Stmt) (ctl, Value) {
 						excluded = true // an earlier assertion or switch on this very value already ruled the kind out
 					}
 				}
-				if excluded && op.Kind == "" {
+				if excluded && (op.Kind == "" || op.Kind == "other") {
 					continue
 				}
 				cands = append(cands, cand{i, k})
 			}
 		}
 		choice := -1
-		if op.Kind != "" {
+		// "other" only says: none of the kinds asked about so far; kinds that were never asked about are still open
+		open := op.Kind == "" || (op.Kind == "other" && len(cands) > 0)
+		if !open {
 			for _, c := range cands {
 				if c.kind == op.Kind {
 					choice = c.arm
@@ -1110,7 +1112,7 @@ func (in *Interp) evalMulti(fr *Frame, e ast.Expr, n int) []Value {
 					return []Value{VNil{}, VBool{Known: true, V: false}}
 				}
 			}
-			if op.Kind == "" {
+			if op.Kind == "" || op.Kind == "other" {
 				if in.decide("A:"+op.Origin+":"+want, 2) == 0 {
 					op.Kind = want
 					return []Value{op, VBool{Known: true, V: true}}
